@@ -94,6 +94,12 @@ def model_unwind(entries, exc):
             exc = ("stop", e.name) if e.kind in SYNC_KINDS else "RuntimeError"
         elif b == "pop_all_inside":
             moved, todo = todo, []
+        elif b == "push_inside":
+            # the exit registers one more exit on the stack being unwound: that one is on top now and runs next, once
+            extra = Entry()
+            extra.name, extra.kind, extra.behave, extra.susp = e.name + "+", "push_sync_fn", "falsy", 0
+            extra.enter_fails, extra.args, extra.dual = False, (), False
+            todo.append(extra)
     if type(exc) is tuple and exc[0] == "stop":
         exc = "RuntimeError"  # leaving the stack's own coroutine, the interpreter converts it (PEP 479)
     return log, exc, moved
@@ -130,7 +136,7 @@ def gen_entries(ch, n):
         e.behave = BEHAVE[ch.weighted([4, 2, 2, 2])]
         e.susp = ch.draw(3)
         e.enter_fails = e.kind in ("async_cm", "sync_cm") and ch.chance(1, 10)
-        e.args = (i, "x")
+        e.args = (i, "x") if not ch.chance(1, 3) else ()  # callbacks with keyword arguments only as well
         e.dual = e.kind in ("async_cm", "push_async_cm") and ch.chance(1, 4)
         out.append(e)
     return out
@@ -166,6 +172,15 @@ class Env:
             raise TaggedStop(("stop", e.name))
         if b == "pop_all_inside":
             self.moved.append(self.current_stack.pop_all())
+        if b == "push_inside":
+            name = e.name + "+"
+
+            def late_exit(et, ev, tb, name=name):
+                self.log.append(("exit", name, tag(ev)))
+                self.count[name] = self.count.get(name, 0) + 1
+                return False
+
+            self.current_stack.push(late_exit)
         return False
 
     def make(self, e):
@@ -351,9 +366,14 @@ def gen(ch):
             # one exit calls pop_all() on the very stack that is being unwound
             sc.entries[ch.draw(n)].behave = "pop_all_inside"
         if n >= 1 and ch.chance(1, 4):
-            # one exit raises StopIteration (of all exceptions)
+            # one exit registers a further exit on the stack while it is being unwound
             e = sc.entries[ch.draw(n)]
             if e.behave != "pop_all_inside":
+                e.behave = "push_inside"
+        if n >= 1 and ch.chance(1, 4):
+            # one exit raises StopIteration (of all exceptions)
+            e = sc.entries[ch.draw(n)]
+            if e.behave not in ("pop_all_inside", "push_inside"):
                 e.behave = "raise_stop"
         # positions (in registration order) at which extra ops happen
         steps = []
@@ -364,6 +384,8 @@ def gen(ch):
         sc.steps = steps
         sc.again = ch.chance(1, 2)
         sc.close_popped = ch.chance(2, 3)
+        # the stacks split off by pop_all are closed at the very end, or already inside the block before it is left
+        sc.close_popped_early = ch.chance(1, 3)
     return sc
 
 
@@ -408,6 +430,12 @@ async def run_history(sc, env, res):
                 if i < len(sc.entries):
                     await register(stack, sc.entries[i], objs[i])
                     groups[-1].append(sc.entries[i].name)
+            if sc.close_popped and sc.close_popped_early:
+                while popped:
+                    new, names = popped.pop(0)
+                    env.log.append(("mark", "close_popped"))
+                    await aclose_of(new, names, "close_popped")
+                    marks.append(("unwound", names))
             env.log.append(("mark", "leave"))
             env.current_stack = stack
             if sc.block_raises:
@@ -477,7 +505,8 @@ def execute(st, ctx):
         if sc.mode == "program":
             d["nested_with"] = {"log": [repr(x) for x in env_r.log], "result": repr(res_r)}
         else:
-            d["history"] = {"steps": sc.steps, "again": sc.again, "close_popped": sc.close_popped}
+            d["history"] = {"steps": sc.steps, "again": sc.again, "close_popped": sc.close_popped,
+                            "popped_closed_inside_the_block": sc.close_popped_early}
         return d
 
     if sc.mode == "program":
@@ -567,7 +596,7 @@ def execute(st, ctx):
                 seg = []
                 for x in env_a.log + [("mark", "end")]:
                     if x[0] == "mark":
-                        idx = [order[nme] for nme in seg]
+                        idx = [order[nme] if nme in order else order[nme[:-1]] - 0.5 for nme in seg]  # "eK+" runs right after eK
                         if idx != sorted(idx, reverse=True):
                             out.violate("C14.not_lifo", sig, describe())
                             break
